@@ -120,7 +120,13 @@ def rule_multiset(ctx):
         hu = sorted(how for (path, how) in e.writes(UNMAKE) if path and path[0] == f)
         key = "Board.%s:%s" % (f, ty.split("<")[0].split("::")[-1])
         if "Vec<" in ty and hm == ["call:push"] and hu == ["call:pop"]:
-            ctx.ok(key, "Board.%s is a Vec pushed once in make_move and popped once in unmake_move (multiplicity-faithful)" % f, ix.bodies[MAKE].where(0))
+            mkb, umb = ix.bodies[MAKE], ix.bodies[UNMAKE]
+            pu = [b_ for b_, _t in calls_on_field(ix, mkb, f, "Vec::push")]
+            po = [b_ for b_, _t in calls_on_field(ix, umb, f, "Vec::pop")]
+            ctx.check(every_path_once(mkb, pu) and every_path_once(umb, po), key,
+                      "Board.%s is a Vec pushed exactly once on every path of make_move and popped exactly once on every path of unmake_move (multiplicity-faithful)" % f, mkb.where(pu[0] if pu else 0),
+                      bad_what=("Board.%s: the push in make_move (%d site(s)) and the pop in unmake_move (%d site(s)) are not both unconditional and unique: when one side is skipped "
+                                "(e.g. a push made conditional on the key not being present yet) a make/unmake pair removes an element it did not add") % (f, len(pu), len(po)))
         elif ("HashSet<" in ty or "BTreeSet<" in ty) and hm == ["call:insert"] and hu == ["call:remove"]:
             # acceptable only if the remove is conditional on the novelty result of the matching insert
             mk = ix.bodies[MAKE]
